@@ -214,8 +214,14 @@ func strRange(r *object.PanRange, runes []rune) object.PanObject {
 	runeArr := valRange(r, len(runes), func(i int64) object.PanObject {
 		return strIndex(i, runes)
 	})
+	arr, ok := runeArr.(*object.PanArr)
+	if !ok {
+		// error (step 0)
+		return runeArr
+	}
+
 	var out bytes.Buffer
-	for _, elem := range runeArr.(*object.PanArr).Elems {
+	for _, elem := range arr.Elems {
 		out.WriteString(elem.(*object.PanStr).Value)
 	}
 	return object.NewPanStr(out.String())
@@ -256,6 +262,11 @@ func valRange(
 	elems := []object.PanObject{}
 	for i := start; hasNext(i, stop); i += step {
 		elems = append(elems, valIndex(i))
+
+		// NOTE: stop here if the next step reaches stop (otherwise i+step may overflow)
+		if (step > 0 && step >= stop-i) || (step < 0 && step <= stop-i) {
+			break
+		}
 	}
 
 	return object.NewPanArr(elems...)
@@ -266,15 +277,21 @@ func canBeUsedForRange(o object.PanObject) bool {
 }
 
 func fixRange(r *object.PanRange, length int64, step int64) (int64, int64) {
+	// NOTE: bounds are clamped to the ends of the sequence in the direction of step
+	lower, upper := int64(0), length
+	if step < 0 {
+		lower, upper = -1, length-1
+	}
+
 	fix := func(i int64) int64 {
-		if i < -length {
-			return 0
-		}
-		if i > length {
-			return length
-		}
 		if i < 0 {
+			if i < -length {
+				return lower
+			}
 			return i + length
+		}
+		if i > upper {
+			return upper
 		}
 		return i
 	}
